@@ -340,4 +340,34 @@ theorem parseConf_checks :
     "len($[]string) == 0" ∈ parseConfConds ∧ "len($[]string) > 1" ∈ parseConfConds ∧
     parseConfDeletes = ["delete($map[string]interface{}, $string#1)"] := by decide
 
+/-- a `return` of `parseConf` that cannot hand out a nil error: it sits under `if err != nil`, or right after
+`err = errors.Errorf(…)` (named results, no explicit result list) -/
+def isErrorReturn (e : String × String × String × String × String) : Bool :=
+  e.1 == "ret" && e.2.2.2.2 == "" &&
+    (e.2.1 == "$error != nil" || (e.2.2.1 == "$error" && e.2.2.2.1 == "errors.Errorf"))
+
+/-- every way out of `parseConf` before the fillConf result is assigned is an error return; the assignment is
+unconditional and assigns a closure; after it there is only the final plain `return` -/
+def flowAlwaysFills (l : List (String × String × String × String × String)) : Bool :=
+  match l.span (fun e => e.1 != "fill") with
+  | (before, [("fill", "", "", "func", ""), ("ret", "", _, _, "")]) => before.all isErrorReturn
+  | _ => false
+
+/-- **whoever gets a nil error from `parseConf` gets a fillConf** (never a nil one — also when the user's settings are
+empty after the `type` key was taken out), and that fillConf is `config.DecodeAndValidate`: decode AND validate.  This is
+what makes `Spec.C18.validating` (fillConf always given, fails on an invalid configuration) the world of the hook path:
+`plugin.New` / `NewFactory` skip the fill step — and with it the validation of the default configuration — for a nil
+fillConf.  Robust against further checks (each must leave with `err = errors.Errorf(…); return`), reordered checks and
+renamed locals. -/
+theorem parseConf_fills : flowAlwaysFills parseConfFlow = true ∧
+    (parseConfDecoder = ["config.DecodeAndValidate"] ∨ parseConfDecoder = ["config.Decode", "config.Validate"]) := by
+  decide
+
+/-- `toStringKeyMap` hands `parseConf` a COPY of the decoder's data (its map result is only ever assigned a fresh `make`,
+and the only map it writes to is that result): taking the `type` key out never changes the data a factory decodes again
+for its next product (`C18_hook`'s "the user's settings are all other entries" holds at EVERY fillConf invocation) -/
+theorem keyMap_copies :
+    keyMapFrom ≠ [] ∧ keyMapFrom.all (· == "make") = true ∧
+    keyMapWrites.all (· == "$map[string]interface{}") = true := by decide
+
 end Pandora.Bridge.Plugin
